@@ -218,7 +218,7 @@ H("path_anti_amplification", ["C07"], "quick", "connection::paths::anti_amplific
   [("validated", "bool"), ("total_sent", "u64"), ("total_recvd", "u64"), ("bytes_to_send", "u64")], 6,
   ["unvalidated within budget", "blocked", "validated"], ["PathData::anti_amplification_blocked"],
   "every counter < 2^62 (overflow of 3*total_recvd needs >= 2^64/3 received bytes on one unvalidated path: outside the bound)")
-H("path_in_flight_accounting", ["C12"], "quick", "connection::paths::in_flight_accounting",
+H("path_in_flight_accounting", ["C12", "C15"], "quick", "connection::paths::in_flight_accounting",
   [("bytes", "u64"), ("ack_eliciting", "u64"), ("path_gen", "u64"), ("pkt_gen", "u64"), ("size", "u16"), ("eliciting", "bool")], 6,
   ["same path: exact inverse", "other path generation: untouched"], ["InFlight::insert", "InFlight::remove", "PathData::remove_in_flight"],
   "every counter < 2^62, every packet size: u16, every generation pair")
@@ -481,6 +481,8 @@ H("streams_reset_then_stop_credit_native", ["C06"], "replay-only", "connection::
   [("buffered", "u8"), ("extra", "u8")], 4, [], ["StreamsState::received_reset", "RecvStream::stop", "StreamsState::add_read_credits"], "native demonstration for finding 17: credit after RESET_STREAM + stop")
 H("streams_illegal_ordered_read_native", ["C11", "C06"], "replay-only", "connection::streams::illegal_ordered_read_native",
   [("x", "u8")], 4, [], ["RecvStream::read", "Chunks::new", "Assembler::ensure_ordering"], "native replay body of E2 query e2_chunks_new_keeps_stream_on_error; demonstration for finding 18")
+H("streams_reset_after_fin_acked_native", ["C11"], "replay-only", "connection::streams::reset_after_fin_acked_native",
+  [("x", "u8")], 4, [], ["SendStream::reset", "StreamsState::received_ack_of", "StreamsState::write_stream_frames"], "native replay body of E2 query e2_sendstream_reset_legality")
 H("streams_stop_sending_native", ["C11"], "replay-only", "connection::streams::stop_sending_native",
   [("state", "u8")], 4, [], ["StreamsState::received_stop_sending", "Send::try_stop", "SendStream::write"], "native replay body of E2 query e2_received_stop_sending")
 H("streams_reset_acked_native", ["C11"], "replay-only", "connection::streams::reset_acked_native",
